@@ -1,14 +1,20 @@
 /-
   Mux.Proofs.GroupLiftMorph — the matcher is PARAMETRIC in the incoming parameters: which children are tried, which
   node is reported and where the search faults depend on the path only; the parameter map is only written
-  (`set name capture`, `erase name` of an abandoned child).  Hence every relation between two parameter maps that is
+  (`set name capture`, `restoreParam … name` of an abandoned child).  Hence every relation between two parameter maps that is
   preserved by a simultaneous `set` / `erase` is preserved by `matchChildren` and by `Tree.handler`.
+
+  After the D30 repair the undo of an abandoned child is `restoreParam before after name` (put the value of `name`
+  from before the child was tried back, or delete it): `Closed.restore` asks for exactly that step.  The stronger law
+  that the repair makes true (a miss leaves the parameters exactly as they were, whatever the names) is in
+  `Mux/Proofs/RestoreMatch.lean`; the relations `R1`/`R2` of this file remain closed and are kept for the lookup forms.
 
   Used to transfer the exact parameter law of `C01_found_from` (incoming keys disjoint from the names of the tree)
   to ARBITRARY incoming parameters, e.g. the captures of a `Group` matcher.
 -/
 import Mux.Proofs.HandlerSound
 import Mux.Proofs.Params
+import Mux.Proofs.Restore
 namespace Mux.P18
 open Mux
 
@@ -23,7 +29,7 @@ def MRRel (R : Params → Params → Prop) : MR → MR → Prop
 /-- `R` is preserved by the two updates the matcher performs. -/
 structure Closed (R : Params → Params → Prop) : Prop where
   set : ∀ a b x v, R a b → R (a.set x v) (b.set x v)
-  erase : ∀ a b x, R a b → R (a.erase x) (b.erase x)
+  restore : ∀ a b a2 b2 x, R a b → R a2 b2 → R (restoreParam a a2 x) (restoreParam b b2 x)
 
 theorem Closed.record {R : Params → Params → Prop} (hR : Closed R) (s : Seg) (cap : Bytes) {a b : Params}
     (h : R a b) : R (if s.kind ≠ .str ∧ ¬ s.ignoreName then a.set s.name cap else a)
@@ -136,7 +142,7 @@ theorem matchFrom_rel (env : Env) (ic : Interceptors) {R : Params → Params →
         obtain ⟨b2, hb2, hr2⟩ := ih.miss_left
         rw [hb2]
         simp only
-        exact matchFrom_rel env ic hR cs 0 path _ _ (hR.erase a2 b2 _ hr2)
+        exact matchFrom_rel env ic hR cs 0 path _ _ (hR.restore a b a2 b2 _ hab hr2)
 end
 
 /-! ## `Tree.handler` -/
@@ -222,13 +228,18 @@ theorem R1.closed (D : List Bytes) : Closed (R1 D) where
     · rw [get?_set_other _ _ hx, get?_set_other _ _ hx]
       rw [get?_set_other _ _ hx] at hk
       exact h k hk
-  erase := by
-    intro a b x h k hk
+  restore := by
+    intro a b a2 b2 x h h2 k hk
+    rw [P19.get?_restoreParam, P19.get?_restoreParam]
+    rw [P19.get?_restoreParam] at hk
     by_cases hx : k = x
-    · subst hx; rw [get?_erase_self, get?_erase_self]
-    · rw [get?_erase_other _ hx, get?_erase_other _ hx]
-      rw [get?_erase_other _ hx] at hk
+    · subst hx
+      rw [if_pos rfl, if_pos rfl]
+      rw [if_pos rfl] at hk
       exact h k hk
+    · rw [if_neg hx, if_neg hx]
+      rw [if_neg hx] at hk
+      exact h2 k hk
 
 /-- `R2 ps a b`: every key of `a` has the value it has in `ps`, or none, or the value it has in `b`. -/
 def R2 (ps : Params) (a b : Params) : Prop :=
@@ -240,16 +251,19 @@ theorem R2.closed (ps : Params) : Closed (R2 ps) where
     by_cases hx : k = x
     · subst hx; rw [get?_set_self, get?_set_self]; exact .inr (.inr rfl)
     · rw [get?_set_other _ _ hx, get?_set_other _ _ hx]; exact h k
-  erase := by
-    intro a b x h k
+  restore := by
+    intro a b a2 b2 x h h2 k
+    rw [P19.get?_restoreParam, P19.get?_restoreParam]
     by_cases hx : k = x
-    · subst hx; rw [get?_erase_self]; exact .inr (.inl rfl)
-    · rw [get?_erase_other _ hx, get?_erase_other _ hx]; exact h k
+    · subst hx
+      rw [if_pos rfl, if_pos rfl]
+      exact h k
+    · rw [if_neg hx, if_neg hx]; exact h2 k
 
 theorem Closed.and {R S : Params → Params → Prop} (hR : Closed R) (hS : Closed S) :
     Closed (fun a b => R a b ∧ S a b) where
   set := fun a b x v h => ⟨hR.set a b x v h.1, hS.set a b x v h.2⟩
-  erase := fun a b x h => ⟨hR.erase a b x h.1, hS.erase a b x h.2⟩
+  restore := fun a b a2 b2 x h h2 => ⟨hR.restore a b a2 b2 x h.1 h2.1, hS.restore a b a2 b2 x h.2 h2.2⟩
 
 /-- The incoming parameters without the keys in `D`. -/
 def dropKeys (D : List Bytes) (ps : Params) : Params := ps.filter (fun e => decide (e.1 ∉ D))
